@@ -28,6 +28,13 @@ for pid in props:
     checks.append(c)
     engines.setdefault(c["engine"], []).append(pid)
 hooks = json.load(open(os.path.join(ROOT, "tools", "hooks.json")))
+try:
+    import subprocess
+    out = subprocess.check_output(["git", "-C", "/repo", "log", "--format=%h %s"], text=True).split("\n")
+    hooks["source_commits"] = [l.split(" ", 1)[0] for l in out if " verif hooks" in " " + l.split(" ", 1)[-1][:12] or l.split(" ", 1)[-1].startswith("verif hooks")][::-1]
+    json.dump(hooks, open(os.path.join(ROOT, "tools", "hooks.json"), "w"), indent=1)
+except Exception as e:
+    print("could not refresh hook commits:", e)
 man = {
     "version": 1,
     "setup_cmd": "./setup.sh",
